@@ -81,7 +81,7 @@ pub fn check(step: &Step, model: &Model, cfg: &Cfg) -> Vec<Finding> {
                     }
                 }
                 for (r, kind) in roots {
-                    let mut all = g.descendants(&r);
+                    let mut all = g.descendants_avoiding(&r, &in_block);
                     all.insert(r);
                     for d in all {
                         if step.after.contains(&d) && !in_block.contains(&d) {
